@@ -577,6 +577,10 @@ def gen_plan(seed: int, cls: str) -> dict:
     if ro.random() < 0.7:
         extra, nroot, ninst = _inferred_serialiser_scenario(ro, sym, roots, nroot, ninst)
         ops.extend(extra)
+    if ro.random() < 0.35:
+        extra, nroot = _near_miss_scenario(ro, sym, roots, nroot, pick_custom)
+        pos = ro.randrange(len(ops) + 1)
+        ops[pos:pos] = extra
     if knobs['faults'] and roots:
         # a handler that raises part-way through converter construction, then the same call again, then others
         for _ in range(ro.choice([1, 2])):
@@ -588,6 +592,18 @@ def gen_plan(seed: int, cls: str) -> dict:
             ops[pos:pos] = [{'op': 'arm', 'handler': hname, 'k': ro.choice([1, 1, 2, 3]), 'exc': ro.choice(['RuntimeError', 'KeyError', 'ValueError'])},
                             {'op': 'convert', 'root': r, 'data': data, 'custom': spec},
                             {'op': 'convert', 'root': r, 'data': data, 'custom': spec}]
+    # fault: a collection (death of dropped classes, their weakref callbacks, addresses becoming recyclable, typing's
+    # alias memo flushed) at an arbitrary instant *inside* a call - between any two lines of pane's code
+    rg = st.rng('gc_inside')
+    if rg.random() < 0.3:
+        knobs['gc_inside'] = True
+        knobs['gc_eager'] = False       # what was dropped stays uncollected until a collection is injected
+        prev = None
+        for op in ops:
+            if op['op'] in ('convert', 'inline', 'lookup', 'keep', 'serialise', 'subscript', 'construct') \
+                    and rg.random() < (0.9 if prev == 'drop' else 0.4):
+                op['gc_at'] = rg.choice([1, 2, 3, 5, 8, 13, 21, 34, 55, 89, 144, 233])
+            prev = op['op']
     return {'prop': PROP, 'seed': seed, 'cls': cls, 'knobs': knobs, 'ops': ops}
 
 
@@ -619,6 +635,47 @@ def _equal_values_scenario(ro, sym, roots, pick_custom):
         except HarnessError:
             pass
     return out
+
+
+NEAR_MISS_SHAPES = [
+    ['list', ['lit', 'a', 'b']], ['tlist', ['lit', 1, 2, 3]], ['list', ['ann', ['s', 'int'], 'Positive']],
+    ['vtuple', ['ann', ['s', 'float'], 'range0_10']], ['dict', ['s', 'str'], ['lit', 'x', 'y']],
+    ['dict', ['lit', 'k', 'kk'], ['s', 'int']], ['set', ['lit', 'p', 'q']], ['list', ['ann', ['list', ['s', 'int']], 'NonEmpty']],
+    ['tuple', ['lit', 'a', 'b'], ['ann', ['s', 'int'], 'NonNegative']], ['opt', ['lit', 'a', 'b']],
+    ['list', ['union', ['lit', 'a', 'b'], ['s', 'int']]], ['tl', ['lit', 'u', 'v'], ['ann', ['s', 'int'], 'Negative']],
+]
+
+
+def _near_miss_scenario(ro, sym, roots, nroot, pick_custom):
+    """
+    One long-lived type object converts valid values first and then values of the *same run-time types* that it must
+    reject (a non-member string for a Literal, a negative int for Positive, a list that is too long): a converter that
+    specialises itself on what it has seen ("elements of this type pass straight through") accepts them the second
+    time.  Ends with a valid value again (a converter that remembers failures).
+    """
+    out = []
+    cons = [r for (r, a) in sorted(roots.items()) if tg.contains(a, lambda x: x[0] in ('lit', 'enum', 'ann'))]
+    if cons and ro.random() < 0.5:
+        r = ro.choice(cons)
+    else:
+        r = f'r{nroot}'
+        nroot += 1
+        roots[r] = ro.choice(NEAR_MISS_SHAPES)
+        out.append({'op': 'build', 'name': r, 't': roots[r]})
+    custom = pick_custom() if ro.random() < 0.3 else None
+    try:
+        seq = []
+        for near in ro.choice([[0, 1], [0, 0, 1], [0, 1, 0], [0, 1, 1, 0]]):
+            for _ in range(8):
+                d = tg.sample_value(roots[r], sym, ro, valid_p=1.0, near_p=0.7 if near else 0.0)
+                if d not in ([], {}, (), None) or _ == 7:
+                    break
+            seq.append(d)
+        for d in seq:
+            out.append({'op': 'convert', 'root': r, 'data': tg.enc(d), 'custom': custom})
+    except HarnessError:
+        pass
+    return out, nroot
 
 
 def _arg_handler_scenario(ro, sym):
@@ -854,6 +911,7 @@ class Exec:
         self.alloc = SimAlloc(st.rng('alloc'), self.knobs['p_recycle'], counters=self.counters)
         self.nops = 0
         self.lru = None
+        self.pending_gc_at = None
 
     def count(self, k, n=1):
         self.counters[k] = self.counters.get(k, 0) + n
@@ -906,6 +964,36 @@ class Exec:
             if fresh:
                 s.bind_mc(saved)
 
+    def gc_inside(self, fn, k):
+        """fn, with a full collection (and typing's cache clean-up) injected at the k-th line pane executes."""
+        n = [0]
+        ex = self
+
+        def ltr(frame, event, arg):
+            if event == 'line':
+                n[0] += 1
+                if n[0] == k:
+                    free0 = len(ex.alloc.free)
+                    gc.collect()
+                    for f in typing._cleanups:
+                        f()
+                    ex.count('gc_inside_call')
+                    if len(ex.alloc.free) > free0:
+                        ex.count('type_died_inside_call', len(ex.alloc.free) - free0)
+                        ex.nontrivial = True
+            return ltr
+
+        def tr(frame, event, arg):
+            return ltr if frame.f_code.co_filename.endswith(TRACED_ALL) else None
+
+        def wrapped():
+            sys.settrace(tr)
+            try:
+                return fn()
+            finally:
+                sys.settrace(None)
+        return wrapped
+
     def compare(self, what, mk, deps=(), cs=None):
         """
         mk(world, insts) -> callable performing the call on the objects of that world.
@@ -916,7 +1004,8 @@ class Exec:
         """
         fn = mk(self.world, self.insts)
         fired_before = sum(self.world.faulty[n].fired for n in self.world.faulty)
-        real_fp, real_exc = self.side(fn, fresh=False)
+        gc_at, self.pending_gc_at = self.pending_gc_at, None
+        real_fp, real_exc = self.side(self.gc_inside(fn, gc_at) if gc_at else fn, fresh=False)
         fired = sum(self.world.faulty[n].fired for n in self.world.faulty) - fired_before
         for h in self.world.faulty.values():
             h.disarm()
@@ -1150,6 +1239,7 @@ class Exec:
         self.trace.add('knobs', self.knobs, self.plan['cls'])
         for i, op in enumerate(self.plan['ops']):
             self.nops = i + 1
+            self.pending_gc_at = op.get('gc_at')
             try:
                 getattr(self, 'op_' + op['op'])(i, op)
                 self.check_memo_invariants(i)
@@ -2080,6 +2170,17 @@ def shrink_candidates(plan, res):
         c = clone(plan)
         c['ops'] = without(ops, drop)
         yield c
+    # collections injected inside calls: none if the failure survives, else one at a time
+    if any('gc_at' in op for op in ops):
+        c = clone(plan)
+        for op in c['ops']:
+            op.pop('gc_at', None)
+        yield c
+        for i, op in enumerate(ops):
+            if 'gc_at' in op:
+                c = clone(plan)
+                del c['ops'][i]['gc_at']
+                yield c
     # allocator: prefer "never recycle" if the failure survives; then deterministic recycling
     if plan['knobs'].get('p_recycle', 0) not in (0.0,):
         c = clone(plan)
